@@ -441,7 +441,8 @@ class Table(Vector):
 				
 				# Replace the column at validated index
 				# (a Vector is copied: the table owns its columns, the caller keeps theirs)
-				value = value.copy() if isinstance(value, Vector) else Vector(value)
+				# (likewise list(...) for other sequences: a caller's tuple must not become the column's storage)
+				value = value.copy() if isinstance(value, Vector) else Vector(list(value))
 				
 				if self._underlying and len(value) != self._length:
 					raise ValueError(
@@ -461,7 +462,8 @@ class Table(Vector):
 			if col_idx is not None:
 				# Replace the column in _underlying
 				# (a Vector is copied: the table owns its columns, the caller keeps theirs)
-				value = value.copy() if isinstance(value, Vector) else Vector(value)
+				# (likewise list(...) for other sequences: a caller's tuple must not become the column's storage)
+				value = value.copy() if isinstance(value, Vector) else Vector(list(value))
 				
 				# Validate length
 				if self._underlying and len(value) != self._length:
